@@ -345,3 +345,7 @@ def call_kwarg(name, key):
 
 
 SOAP_HTTP_TRANSPORT = "http://schemas.xmlsoap.org/soap/http"  # WSDL 1.1 SOAP binding, section 3.3
+
+
+def loops_exhausted():
+    raise NotImplementedError("loops_exhausted() is a symbolic-only builtin")
